@@ -14,6 +14,14 @@ def hm(m): return "%02d:%02d" % divmod(m % 1440, 60)
 def impl(a, b):
     try: return "ok " + tools.calc_duration(a, b)
     except Exception: return "raised"
+def impl_kw(a, b, form):
+    """the same call spelled with keywords, in either order, or from a dict"""
+    try:
+        if form == 0: return "ok " + tools.calc_duration(start_time=a, end_time=b)
+        if form == 1: return "ok " + tools.calc_duration(end_time=b, start_time=a)
+        if form == 2: return "ok " + tools.calc_duration(a, end_time=b)
+        return "ok " + tools.calc_duration(**{"end_time": b, "start_time": a})
+    except Exception: return "raised"
 
 
 def run(tier, rnd, out):
@@ -28,6 +36,10 @@ def run(tier, rnd, out):
     mo = lib.run_model([lib.req("duration", a, b) for a, b in pairs]); ex = lib.run_model([lib.req("duration_spec", a, b) for a, b in pairs])
     lib.differential(out, "pairs", cases, io, mo, ex, lambda c: "calc_duration(%r, %r)" % (c["start"], c["end"]),
                      nontrivial=lambda c: c["start"] != c["end"], sample=lambda c: c, classify=lambda c, i: i.split(" ")[0])
+    kwp = [(hm(rnd.randrange(1440)), hm(rnd.randrange(1440)), k % 4) for k in range(200)]
+    lib.differential(out, "keyword-spellings-of-the-call", [{"start": a, "end": b, "form": f} for a, b, f in kwp], [impl_kw(a, b, f) for a, b, f in kwp],
+                     lib.run_model([lib.req("duration", a, b) for a, b, _ in kwp]), lib.run_model([lib.req("duration_spec", a, b) for a, b, _ in kwp]),
+                     lambda c: "calc_duration with keywords (form %d) start %r end %r" % (c["form"], c["start"], c["end"]), nontrivial=lambda c: c["start"] != c["end"], sample=lambda c: c)
     # schedule objects: every object reports the duration of its own times, whatever objects (same slot id included) exist already
     from aioswitcher.schedule.parser import SwitcherSchedule
     from aioswitcher.schedule import Days
